@@ -80,6 +80,12 @@ func c04Keys(c *fw.Case, n int) {
 			}
 			typ = "RSA"
 		}
+		if i%5 == 3 {
+			// members are free text for the hash formula: characters the canonical form escapes, must not escape, or orders by
+			j["nonce"] = fw.Pick(r, []string{"a\u0001b", "\u001f", "tab\there", "line\nbreak\r", "\b\f", "quote\"back\\slash/", "del\u007f", "sep\u2028\u2029", "<&>", "\u00e9\u20ac\U0001F600", "\u0000"}) + fmt.Sprint(r.Intn(10))
+			nonce = true
+			c.Count("free-text-members", 1)
+		}
 		x, y := k.XY()
 		lz := 0
 		if len(x) > 0 && x[0] == 0 {
